@@ -117,6 +117,14 @@ def run_replay(binary, test, path, work, timeout=300, extra_env=None):
     return "error", out
 
 
+def binary_for(binaries, cfg, test):
+    """Engine binary that contains `test` (parts may live in different engines)."""
+    for p in cfg["parts"]:
+        if p["test"] == test or test in p.get("aux_tests", []):
+            return binaries[p.get("engine", cfg["engine"])]
+    return binaries[cfg["engine"]]
+
+
 def merge_evidence(evdir, cid, cfg, tier, seed, wall, violations, assumptions_extra, fuzz_info):
     parts = {}
     for fn in sorted(glob.glob(os.path.join(evdir, "*.json"))):
@@ -248,9 +256,13 @@ def main():
     if seed == 0:
         seed = 1  # rapid treats 0 as "random"; the checks are a pure function of VERIF_SEED
     t0 = time.time()
-    binary = build(cfg["engine"])
-    if not binary:
-        return 2
+    binaries = {}
+    for eng in sorted({cfg["engine"]} | {p.get("engine", cfg["engine"]) for p in cfg["parts"]}):
+        b = build(eng)
+        if not b:
+            return 2
+        binaries[eng] = b
+    binary = binaries
     work = tempfile.mkdtemp(prefix="verif-%s-" % cid, dir=scratch_base())
     os.chmod(work, 0o755)
     try:
@@ -276,7 +288,7 @@ def run_check(cid, cfg, tier, seed, binary, work, a, t0):
     if a.replay:
         with open(a.replay) as f:
             test = json.load(f)["test"]
-        st, out = run_replay(binary, test, a.replay, work)
+        st, out = run_replay(binary_for(binary, cfg, test), test, a.replay, work)
         sys.stdout.write(out[-3000:])
         if st == "fail":
             print("VIOLATION property=%s replay=%s" % (cid, os.path.abspath(a.replay)))
@@ -292,7 +304,7 @@ def run_check(cid, cfg, tier, seed, binary, work, a, t0):
     for path in sorted(glob.glob(os.path.join(ROOT, "replays", cid, "**", "*.json"), recursive=True)):
         with open(path) as f:
             test = json.load(f)["test"]
-        st, out = run_replay(binary, test, path, work)
+        st, out = run_replay(binary_for(binary, cfg, test), test, path, work)
         k = witness_paths.get(os.path.normpath(path))
         if k and k.get("status") == "known":
             if st == "fail":
@@ -321,7 +333,7 @@ def run_check(cid, cfg, tier, seed, binary, work, a, t0):
             os.makedirs(cwd)
             env = env_with(dict(base_env, VERIF_CHECKS=str(per), VERIF_SHARD=str(s), VERIF_SHARD_SEED=str(sd)))
             env.update(part.get("env", {}))
-            cmd = [binary, "-test.run", "^%s$" % part["test"], "-test.timeout", "0", "-test.count", "1",
+            cmd = [binary[part.get("engine", cfg["engine"])], "-test.run", "^%s$" % part["test"], "-test.timeout", "0", "-test.count", "1",
                    "-rapid.checks=%d" % per, "-rapid.seed=%d" % sd, "-rapid.nofailfile",
                    "-rapid.shrinktime=%s" % part.get("shrinktime", "20s")]
             log = os.path.join(work, "%s-%d.log" % (part["test"], s))
